@@ -31,13 +31,15 @@ ASSUMPTIONS = [
 
 known_labels = {e['id'] for e in common.load_known(ID) if e.get('status') == 'known'}
 SINGLE = ('insert_one', 'update_one', 'replace_one', 'delete_one')
+FAM = ('find_one_and_update', 'find_one_and_replace', 'find_one_and_delete')
 
 
 def histgen(rng, oids):
     hg = hist.HistGen(rng, oids, weights=dict(
         insert_one=16, insert_many=12, update_one=26, update_many=8, replace_one=12,
         delete_one=4, delete_many=1, find=0, count=0, distinct=0, create_index=5,
-        drop_index=0, drop_indexes=1, drop=1, bulk_write=9), ttl=False)
+        drop_index=0, drop_indexes=1, drop=1, bulk_write=9, find_one_and_update=5,
+        find_one_and_replace=2, find_one_and_delete=2), ttl=False)
     hg.ug.malformed = 0.22
     hg.dollar_values = 0.04
     return hg
@@ -68,6 +70,14 @@ def oracle(history, steps):
         k = st.op[0]
         if st.out[0] == 'err' and k in SINGLE and cur != prev:
             fails.append((i, 'trace', 'failed %s (%s) changed the collection: %r -> %r'
+                          % (k, st.out[1], prev, cur)))
+        if st.out[0] == 'err' and k in FAM and cur != prev:
+            # known: with return_document=AFTER the read-back (and its projection) runs after
+            # the write, so a projection that is refused leaves the write behind
+            after = k != 'find_one_and_delete' and bool(st.op[6])
+            proj = st.op[3] if k != 'find_one_and_delete' else st.op[2]
+            lab = 'fam-after-projection-error' if (after and proj is not None) else 'trace'
+            fails.append((i, lab, 'failed %s (%s) changed the collection: %r -> %r'
                           % (k, st.out[1], prev, cur)))
         if st.out[0] == 'err' and k in ('find', 'count', 'distinct', 'delete_many') and cur != prev:
             fails.append((i, 'trace', 'failed %s changed the collection' % k))
